@@ -353,6 +353,9 @@ func TestVerifC36Rapid(t *testing.T) {
 	u := vc36Universe(40)
 	rapid.Check(t, func(t *rapid.T) {
 		n := rapid.IntRange(1, 22).Draw(t, "alphabetSize")
+		if n < 4 && rapid.IntRange(0, 3).Draw(t, "keepSmall") != 0 {
+			n += 3 // alphabets below 4 keys can never rotate (limit 0): keep them, but rarer
+		}
 		perm := rapid.Permutation(vc36Iota(len(u))).Draw(t, "perm")
 		curIdx := perm[:n]
 		others := perm[n:]
@@ -360,7 +363,7 @@ func TestVerifC36Rapid(t *testing.T) {
 
 		// main net list: keep some current members, add some new ones (biased around the limit), any order
 		var mainIdx []int
-		mode := rapid.SampledFrom([]string{"rotate", "rotate", "rotate", "same", "random", "superset"}).Draw(t, "mode")
+		mode := rapid.SampledFrom([]string{"rotate", "rotate", "rotate", "rotate", "rotate", "rotate", "same", "random", "superset"}).Draw(t, "mode")
 		switch mode {
 		case "same":
 			mainIdx = slices.Clone(curIdx)
@@ -372,7 +375,7 @@ func TestVerifC36Rapid(t *testing.T) {
 			mainIdx = p2[:m]
 		default:
 			drop := rapid.IntRange(0, n).Draw(t, "dropped")
-			add := rapid.IntRange(max(0, limit-1), min(len(others), limit+3+drop)).Draw(t, "addedInMain")
+			add := rapid.IntRange(max(1, limit-1), min(len(others), limit+3+drop)).Draw(t, "addedInMain")
 			mainIdx = append(slices.Clone(curIdx[drop:]), others[:add]...)
 		}
 		mainIdx = vc36Shuffle(t, mainIdx, "mainOrder")
@@ -395,7 +398,7 @@ func TestVerifC36Rapid(t *testing.T) {
 		if msg != "" {
 			t.Fatalf("C36 newAlphabetList: cur=%s main=%s: %s", vc36Names(u, cur), vc36Names(u, main), msg)
 		}
-		alt, err := newAlphabetList(vc36Shuffle2(t, cur, "curOrder2"), vc36Shuffle2(t, main, "mainOrder2"))
+		alt, err := newAlphabetList(vc36Pick(u, vc36Shuffle(t, slices.Clone(curIdx), "curOrder2")), vc36Pick(u, vc36Shuffle(t, slices.Clone(mainIdx), "mainOrder2")))
 		if err != nil && newAlpha != nil || !vc36SameList(alt, newAlpha) {
 			t.Fatalf("C36 newAlphabetList depends on input order: cur=%s main=%s: %s vs %s (err %v)",
 				vc36Names(u, cur), vc36Names(u, main), vc36Names(u, newAlpha), vc36Names(u, alt), err)
@@ -484,9 +487,10 @@ func vc36Shuffle(t *rapid.T, l []int, label string) []int {
 	return rapid.Permutation(l).Draw(t, label)
 }
 
-func vc36Shuffle2(t *rapid.T, l keys.PublicKeys, label string) keys.PublicKeys {
-	if len(l) < 2 {
-		return slices.Clone(l)
+func vc36Pick(u keys.PublicKeys, idx []int) keys.PublicKeys {
+	r := make(keys.PublicKeys, 0, len(idx))
+	for _, i := range idx {
+		r = append(r, u[i])
 	}
-	return keys.PublicKeys(rapid.Permutation([]*keys.PublicKey(l)).Draw(t, label))
+	return r
 }
